@@ -1,4 +1,4 @@
-(* Proofs/DequeAbaStab.v — (aba-guarded version of Proofs/DequeConcStab.v) stability of a thread's register invariant [J] under the steps of
+(* Proofs/DequeAbaStab.v — (node-reuse version of Proofs/DequeConcStab.v, unguarded since the repair) stability of a thread's register invariant [J] under the steps of
    OTHER threads: [J_frame] (steps that leave the anchor alone: private stores, allocation,
    deallocation, the link CAS of stabilize) and [J_acas] (a successful anchor CAS). *)
 From Coq Require Import List NArith Bool Lia Arith Permutation.
@@ -21,7 +21,10 @@ Section Frame.
      (outward s (heap g' x) = outward s (heap g x) \/
       (ltag (outward s (heap g x)) < ltag (outward s (heap g' x)) /\
        forall n, second s c n x -> ast (anc g) = push_status s -> lptr (outward s (heap g' x)) = n)).
-  Hypothesis Htag : forall x s, In x c \/ In x pend -> epoch g' x = epoch g x ->
+  (* link tags never decrease at an address that has ever been handed out — across free and
+     re-allocation: this is what the repair of F15 (tags continue across reuse) provides *)
+  Hypothesis Hlive_nz : forall x, In x c -> epoch g x <> 0.
+  Hypothesis Htag : forall x s, epoch g x <> 0 ->
      ltag (outward s (heap g x)) <= ltag (outward s (heap g' x)).
 
   Lemma snap_frame lrs : snap_ok g lrs -> snap_ok g' lrs.
@@ -82,12 +85,10 @@ Section Frame.
       + pose proof (proj2 (second_in _ _ _ _ (C EA))) as Hp.
         destruct (lnk_chain_frame s (lptr prev) pn Hp (or_introl E)) as [E'|E'].
         * left. split; [exact EA|]. split; [exact E'|]. rewrite (proj1 (Hchain _ s Hp)). exact Ee.
-        * right. intros _. split; [exact E'|left; exact Hp].
-      + right. intros Ee. pose proof (Hmono (lptr prev)) as M.
-        assert (Eg : epoch g (lptr prev) = e) by lia. destruct (E Eg) as [Lt In]. rewrite <- Eg in Ee.
-        split.
-        * unfold lnk_lt in *. pose proof (Htag (lptr prev) s In Ee). lia.
-        * destruct In as [In|In]; [left; exact In|right; apply Hpend; assumption].
+        * right. split; [exact E'|]. rewrite (proj1 (Hchain _ s Hp)). exact (Hlive_nz _ Hp).
+      + right. destruct E as [Lt Nz]. pose proof (Hmono (lptr prev)) as M. split.
+        * unfold lnk_lt in *. pose proof (Htag (lptr prev) s Nz). lia.
+        * lia.
     - intros (A & B & C). split; [apply Jk_frame; [ow|auto]|]. split; [apply stab_frame; exact B|].
       intros EA n p r Hv. specialize (C EA n p r Hv).
       assert (Hp : In p c). { apply (in_vw s). rewrite Hv. cbn; auto. }
@@ -158,7 +159,7 @@ Section Acas.
       destruct E as [(EA & E & _)|E].
       + exfalso. destruct B as (_ & B & _). rewrite EA in B. destruct (C EA) as [r Hr].
         pose proof (Hfix s B _ _ _ Hr) as F. rewrite E in F. apply D. exact F.
-      + intros Ee. destruct (E Ee) as [Lt [In|In]]; (split; [exact Lt|]); [destruct (Hc _ In); auto|right; auto].
+      + exact E.
     - intros (A & B & C). split; [apply Jk_acas; [ow|auto]|]. split; [apply stab_acas; exact B|].
       intros E. exfalso. exact (snap_acas_ne lrs (proj1 B) E).
   Qed.
